@@ -333,6 +333,10 @@ func ruleAcceptLoops(c *Ctx, rid string) {
 						}
 					}
 				}
+				if !okE && c.P.exitOnStopSignal(edgeFacts(b, idx)) {
+					// the loop is left because a channel that Stop closes has fired
+					okE = true
+				}
 				if !okE {
 					badExit++
 					c.bad(rid, fmt.Sprintf("%s/exit#%d", key, badExit), c.P.instrPos(b.Instrs[len(b.Instrs)-1]), "the accept loop can be left for a reason other than the error of Accept itself (one client's failure stops acceptance)")
@@ -860,6 +864,7 @@ func runC19(c *Ctx) {
 	ruleStopSweep(c, "R19.e")
 	ruleNoLockAcrossBlocking(c, buildSyncModel(c), "R19.f")
 	ruleAcceptLoopEndsWithListener(c, "R19.g")
+	ruleAcceptLoopWaits(c, "R19.k")
 	// a loop that can spin keeps its goroutine, socket and registry entry for ever
 	ruleLoopProgress(c, "R19.h")
 	c.assume("a peer that stops reading keeps the goroutine blocked in Write until it goes away (no write deadline exists); not a leak once the peer is gone")
